@@ -101,7 +101,8 @@ extern int (* vk_on_deadlock)(void);	/* poll(-1) with nothing scheduled: return 
 /* connect behaviour lookup: engine decides the answer for connect(fd, port) */
 struct vk_connect_answer { int rc_errno; int async_result_errno; uint64_t delay_ns; int never; };
 extern int (* vk_on_connect)(struct vsock *, int port, struct vk_connect_answer *);
-extern int (* vk_on_socket)(void);	/* return errno to fail socket(), 0 to succeed */
+extern int (* vk_on_socket)(void);
+extern int (* vk_on_bind)(struct vsock *);	/* return errno to fail bind(), 0 to succeed */	/* return errno to fail socket(), 0 to succeed */
 extern void (* vk_on_close)(struct vsock *);
 extern void (* vk_on_recv)(struct vsock *, long result, int err);
 extern const void * vk_last_recv_buf;	/* buffer address of the recv call being reported */
